@@ -181,10 +181,30 @@ def one_step_law(ctx, drv, sis, nmax, limit):
             ctx.violation("%s raised %s during one-step law enumeration" % (name, type(e).__name__), dict(rep, error=type(e).__name__))
             continue
         reqs.append(dict(op="reedfrost", n=n, adj=[list(G.neighbors(u)) for u in range(n)], inf=infs, p=str(p)))
+        # the model's own sequential-draw program (ReedFrost.stepDist, the object of the joint_law theorems)
+        reqs.append(dict(op="reedfrostJoint", adj=[list(G.neighbors(u)) for u in range(n)], inf=infs,
+                         sus=[code[i] == "S" for i in range(n)], p=str(p), redraw=True))
         metas.append((rep, agg, code))
-    for (rep, agg, code), m in zip(metas, drv.batch(reqs)):
+    outs = drv.batch(reqs)
+    for (rep, agg, code), m, mj in zip(metas, outs[0::2], outs[1::2]):
         ctx.count("%s:law-states" % rep["entry"])
         n = rep["n"]
+        # (i) the real code's exact one-step law vs the law of the Lean program
+        specj = {}
+        for new, mass in mj["dist"]:
+            st = list(code)
+            for i in range(n):
+                if code[i] == "I":
+                    st[i] = "S" if rep["entry"].endswith("SIS") else "R"
+            for v in new:
+                st[v] = "I"
+            if F(mass) > 0:
+                specj["".join(st)] = specj.get("".join(st), F(0)) + F(mass)
+        badj = symu.interval_ok(agg, specj)
+        if badj:
+            ctx.violation("%s: one-step transition law differs from the law of the sequential-draw model (ReedFrost.stepDist)" % rep["entry"],
+                          dict(rep, law=[[k, str(a), str(b)] for k, a, b, _ in badj[:6]]))
+            continue
         probs = [F(x) for x in m["prob"]]
         spec = {}
         sus = [i for i in range(n) if code[i] == "S"]
